@@ -103,7 +103,10 @@ where
         .enumerate()
         .map(|(original_index, &prob)| {
             let prob: f64 = prob.into();
-            let current_free_weight = (prob * scale).as_();
+            // Clamp to the remaining free weight: `prob * scale` can exceed it if `scale`
+            // overflows to infinity (for tiny `normalization`) or due to rounding errors.
+            let current_free_weight =
+                AsPrimitive::<Probability>::as_(prob * scale).min(remaining_free_weight);
             remaining_free_weight = remaining_free_weight - current_free_weight;
             let weight = current_free_weight + Probability::one();
 
